@@ -2,7 +2,7 @@
    `scalar_mul`, `unit_phases`, `one_plus_*` are regenerated from /repo/src on every run. *)
 From Coq Require Import ZArith List Ring_theory.
 Import ListNotations.
-Require Import TV.Base.Wrap32 TV.Base.D8 TV.gen.Gen_exact_scalar TV.Model.ExactScalar TV.Proofs.ExactScalarProofs.
+Require Import TV.Base.Wrap32 TV.Base.D8 TV.gen.Gen_exact_scalar TV.Model.ExactScalar TV.Proofs.ExactScalarProofs TV.Proofs.CliffordProd.
 Open Scope Z_scope.
 
 (* multiplication is the product of Z[w]/(w^4+1), in every commutative ring with w^4 = -1 (e.g. C, w = e^{i pi/4}) *)
@@ -79,6 +79,28 @@ Proof. intros. split; [eapply den_unit_phase | eapply den_one_plus_phase]; eassu
 
 Theorem C09_reduce_total_int32 : forall c p, q4_in32 c -> reduce (c, p) <> None.
 Proof. exact reduce_total_int32. Qed.
+
+(* prod(): stabilizer-type factor lists (raw table values 2, 0, i^k, i^k(1+i), all powers 0) of ANY length, in ANY
+   bracketing the associative scan may choose, never wrap and give exactly the ordered product:
+   value = 2^p * c.  (`prod_reduces` is regenerated from the source: it is true iff the scan reduces after
+   every multiplication; reverting that makes this theorem unprovable.) *)
+Theorem C09_prod_stabilizer_exact_any_bracketing : prod_reduces = true -> forall t,
+  Forall (fun x => In (fst x) cliff_raw /\ snd x = 0) (tree_leaves t) ->
+  Z.of_nat (tree_nodes t) < 2 ^ 28 ->
+  exists c p, tree_eval t = Some (c, p) /\ In c cliff_raw /\ 0 <= p <= 2 * Z.of_nat (tree_nodes t) /\
+              q4_scale (2 ^ p) c = fold_left scalar_mul (map fst (tree_leaves t)) q4_one.
+Proof. exact tree_cliff_exact. Qed.
+Theorem C09_prod_reduces_in_source : prod_reduces = true.
+Proof. reflexivity. Qed.
+Theorem C09_fold_is_a_bracketing : forall l acc a, tree_eval acc = Some a -> fold_combine l a = tree_eval (left_tree acc l).
+Proof. exact fold_combine_left_tree. Qed.
+
+(* the unguarded clause "no operation silently wraps" is false of the faithful int32 model for non-Clifford
+   growth: 64 factors (1 + w) -- recorded as a known finding *)
+Theorem C09_wrap_refuted :
+  exists r, esa_prod (repeat (one_plus_w, 0) 64) = Some r /\
+            value_of r <> fold_left scalar_mul (repeat one_plus_w 64) q4_one.
+Proof. exact prod_wraps_witness. Qed.
 
 (* non-vacuity: the guard of C09_prod_nowrap is met by a concrete 20-factor product of (1 + w) *)
 Example C09_guard_inhabited : fold_left mul32 (repeat (1, 1, 0, 0) 20) q4_one = fold_left scalar_mul (repeat (1, 1, 0, 0) 20) q4_one.
